@@ -403,4 +403,8 @@ def replay(data, ctx):
     figpath = os.path.join(td, "ok.png")
     with open(figpath, "wb") as f:
         f.write(G.png_bytes(random.Random(0), 10, 10, 20))
-    check(ctx, data["case"], figpath)
+    try:
+        check(ctx, data["case"], figpath)
+    finally:
+        import shutil
+        shutil.rmtree(td, ignore_errors=True)
